@@ -1,9 +1,27 @@
 import Driver.Util
 import Driver.C13
+import Driver.C07
+import Driver.C18
+import Driver.C14
+import Driver.C15
+import Driver.C20
+import Driver.C17
+import Driver.C09
+import Driver.C08
+import Driver.C16
 
 def main (args : List String) : IO UInt32 := do
   let stdin ← IO.getStdin
   let stdout ← IO.getStdout
   match args with
+  | ["c07"] => Driver.loop stdin stdout Driver.C07.step {}; return 0
   | ["c13"] => Driver.loop stdin stdout Driver.C13.step {}; return 0
+  | ["c18"] => Driver.loop stdin stdout Driver.C18.step {}; return 0
+  | ["c14"] => Driver.loop stdin stdout Driver.C14.step (); return 0
+  | ["c15"] => Driver.loop stdin stdout Driver.C15.step {}; return 0
+  | ["c20"] => Driver.loop stdin stdout Driver.C20.step {}; return 0
+  | ["c17"] => Driver.loop stdin stdout Driver.C17.step {}; return 0
+  | ["c09"] => Driver.loop stdin stdout Driver.C09.step {}; return 0
+  | ["c08"] => Driver.loop stdin stdout Driver.C08.step {}; return 0
+  | ["c16"] => Driver.loop stdin stdout Driver.C16.step {}; return 0
   | _ => IO.eprintln s!"unknown model {args}"; return 2
